@@ -218,3 +218,25 @@ Proof.
     change (snd (run 5000 (fmodule nv_ft2 nv_main2))) with RODone in H2.
     destruct (snd (fst (execute fuel' (cprogram nvp (fmodule nv_ft2 nv_main2)) (s_module_fn nvp)))); try contradiction. reflexivity.
 Qed.
+
+(* ---------------------------------------------------------------- stage 5a: anonymous from loops (hidden register counters,
+   nested, with step / break / continue) and colliding counters (the counter is an existing variable that survives
+   the loop) *)
+Definition nv_s7 : source :=
+  [ SAssign vn (EInt 1); SAssign vacc (EInt 0); SAssign vi (EInt 100);
+    SFrom (EInt 1) (EBin BAdd (EVar vn) (EInt 4)) true (Some (EInt 2)) None false
+      [ SOpAssign vacc BAdd (EInt 1);
+        SFrom (EInt 0) (EInt 3) false None None false
+          [ SIf (EBin BEq (EVar vacc) (EInt 2)) [ SContinue ];
+            SOpAssign vacc BAdd (EInt 10);
+            SFrom (EInt 0) (EInt 9) false None (Some vi) true
+              [ SIf (EBin BGe (EVar vi) (EInt 2)) [ SBreak ];
+                SPrint (EVar vi) ] ];
+        SIf (EBin BGt (EVar vacc) (EInt 60)) [ SBreak ] ];
+    SPrint (EVar vacc);
+    SPrint (EVar vi) ].
+Example C01_nv_stage5a :
+  ok_block [] None false [] nv_s7 = true /\
+  vm_out nv_s7 5000 = (fst (run 5000 nv_s7), Done) /\ snd (run 5000 nv_s7) = RODone /\
+  length (fst (run 5000 nv_s7)) = 14.
+Proof. vm_compute. repeat split. Qed.
